@@ -59,7 +59,8 @@ def url_cases(draw):
     return {"uri": uri, "scheme": scheme, "path": path, "query": query,
             "content_type": draw(st.sampled_from(["application/json-rpc", "application/json", "text/x-json; charset=utf-8"])),
             "args": draw(st.lists(st.one_of(wide_text, gen.json_values(4)), max_size=3)),
-            "style": draw(st.sampled_from(["call", "notify", "batch"])), "version": draw(st.sampled_from([1.0, 2.0])),
+            # "raw-text": the caller hands its own request text to the proxy (written in raw UTF-8, not \\u-escaped)
+            "style": draw(st.sampled_from(["call", "notify", "batch", "raw-text", "raw-text"])), "version": draw(st.sampled_from([1.0, 2.0])),
             # what the same proxy did before: nothing, a complete exchange, or a request that failed
             # while its header block was being written (a header value the HTTP layer refuses)
             "prior": draw(st.sampled_from([None, None, "complete", "failed-in-headers", "failed-in-headers"]))}
@@ -97,6 +98,8 @@ def oracle_client_request(case):
             proxy.method_x(*case["args"])
         elif case["style"] == "notify":
             proxy._notify.method_x(*case["args"])
+        elif case["style"] == "raw-text":
+            proxy._run_request(json.dumps({"jsonrpc": "2.0", "id": 1, "method": "m\u00e9thode", "params": case["args"]}, ensure_ascii=False))
         else:
             mc = J.MultiCall(proxy, cfg)
             mc.method_x(*case["args"])
